@@ -8,6 +8,12 @@ import re
 VERIF = os.path.dirname(os.path.dirname(os.path.abspath(__file__)))
 DPROP = dict(D1="C11", D14="C11", D7="C11", D11="C09", D13="C09", D2="C02", D3="C04", D5="C05", D6="C08", D7b="C08", D19="C08",
              D10="C08", D20="C08", D18="C03", D22="C17", D16="C20", D17="C20", D24="C08")
+NOTES = {
+    "C11-f": "not reported, on purpose: differs from the pinned code only for SOURCES that report Interrupted; no statement speaks of them and the pinned code itself does not retry them everywhere (DESIGN 10.14 round 12)",
+    "C04-g": "not reported, on purpose: same reason as C11-f (a source reporting Interrupted once)",
+    "C19-e": "not reported, on purpose: the change makes Ed25519 parents FOLLOW the documented derivation (README: 'the clamped private key'); it removes occurrences of the known finding D21 instead of adding a violation (DESIGN 10.14 rounds 9-10)",
+    "C18-e": "the statement it breaks is C17's (mlar and keys), reported by C17",
+}
 known = {f["id"]: f for f in json.load(open(os.path.join(VERIF, "known_findings.json")))["findings"] if "id" in f}
 for d in sorted(glob.glob(os.path.join(VERIF, "seeded", "*"))):
     name = os.path.basename(d)
@@ -49,5 +55,7 @@ for d in sorted(glob.glob(os.path.join(VERIF, "seeded", "*"))):
                                how=("lib/seedtest_ns.py: patched copy of /repo and copy of /verif bind-mounted in a private mount namespace; ./check <id>"
                                     if j.get("via") else
                                     "lib/seedtest.py: git -C /repo apply patch.diff; ./check <id> --tier quick; git -C /repo checkout -- ."))
+    if name in NOTES:
+        meta["note"] = NOTES[name]
     json.dump(meta, open(os.path.join(d, "meta.json"), "w"), indent=1)
 print("meta.json written for", len(glob.glob(os.path.join(VERIF, "seeded", "*"))), "seeds")
